@@ -17,7 +17,8 @@ RULE = ("cases = generator kind (ODE / stationary d=1..3 / non-stationary d=1..2
         "(a store or batch with >= 1 point); distinct = distinct (kind, method, dim, domain, "
         "sizes, key, dtype) tuples")
 ASSUMPTIONS = [
-    "bounds are compared in the dtype of the stored arrays (closed box [dtype(min), dtype(max)])",
+    "bounds are compared in the dtype of the stored arrays (closed box [dtype(min), dtype(max)]); the 1-D end points "
+    "in the dtype of the inside points (the process's floating precision)",
     "grid sampling in dimension d is only asked for n = k**d (a regular grid of other sizes is undefined)",
     "declared shapes: times (nt,), omega (n,d), 2-D border (nb/4,2,4), 1-D border the pair (xmin,xmax); "
     "batches as annotated in jinns.data._Batchs",
@@ -203,8 +204,10 @@ def run_ctor(case, rec):
                 ob = g.omega_border
                 if dim == 1:
                     a = np.asarray(ob)
-                    exp = np.array([mins[0], maxs[0]], dtype=a.dtype)
-                    if a.shape != (2,) or not np.array_equal(a, exp):
+                    # the end points as the process's floating precision represents them (the dtype of the inside
+                    # points), not as whatever dtype the border happens to be stored in
+                    exp = np.array([mins[0], maxs[0]], dtype=np.asarray(g.omega).dtype).astype(np.float64)
+                    if a.shape != (2,) or not np.array_equal(a.astype(np.float64), exp):
                         rec.violation(sigp + "/border1d", "1-D border store is %r, expected the pair %r"
                                       % (a.tolist(), exp.tolist()))
                     rec.count("facet_points_checked", 2)
@@ -307,8 +310,8 @@ def run_hist(case, rec):
             rec.violation(sigp + "/border-batch-shape", "border batch shape %s, declared %s" % (bbn.shape, exp_b))
             continue
         if dim == 1:
-            a = sp.reshape(-1, 2)
-            exp = np.array([mins[0], maxs[0]], dtype=a.dtype)
+            a = sp.reshape(-1, 2).astype(np.float64)
+            exp = np.array([mins[0], maxs[0]], dtype=ib.dtype).astype(np.float64)
             if not np.all(a == exp[None, :]):
                 rec.violation(sigp + "/border1d", "1-D border batch %r is not the pair (xmin, xmax) %r"
                               % (a[:2].tolist(), exp.tolist()))
